@@ -1137,7 +1137,7 @@ def run(ctx):
 
     def merge_keep_violations(d):
         d = d.to_dict() if isinstance(d, Result) else dict(d)
-        collected.extend(d["violations"])
+        collected.extend((i, v) for i, v in enumerate(d["violations"]))
         d["violations"] = []
         plain_merge(d)
 
@@ -1148,13 +1148,14 @@ def run(ctx):
         ctx.merge = plain_merge
     fam_rank = {"fast": 0, "tree": 1, "nn": 2}
 
-    def simplicity(v):
+    def simplicity(iv):
+        i, v = iv
         c = v["case"]
         return (int(c["n"]), int(c["na"]) + int(c["nb"]), fam_rank.get(c.get("fam"), 3),
                 {"uhf_cpmc": 0, "ghf_cpmc": 1}.get(c.get("trial", c.get("kind")), 2),
-                {"nonuniform": 0, "uniform": 1}.get(c.get("density"), 2), str(c.get("prop")), str(c.get("mode")))
+                {"nonuniform": 0, "uniform": 1}.get(c.get("density"), 2), bool(c.get("nonorth", False)), i)
 
-    for v in sorted(collected, key=simplicity):
+    for _, v in sorted(collected, key=simplicity):
         ctx.violation(v["signature"], v["case"], v["detail"])
     ctx.require_guard("leaves", "probes_with_interior_probability", "identity_evaluated[library]", "identity_evaluated[bare]",
                       "identity_evaluated[library,uniform density]", "identity_evaluated[library,nonuniform density]",
